@@ -450,8 +450,24 @@ theorem C16_ancient_branch (g : Graph InEpoch) (sampled : List DName) (times : L
             (((sampled.zip times).filter fun p => !decide (p.2 - listMin times > 0) && decide (listMin times > 0)).map (·.1))))
     ∧ (augment g sampled times).frozen = ((sampled.zip times).filter fun p => decide (p.2 - listMin times > 0)).map (fun p => p.1.sampledAt p.2)
     ∧ (augment g sampled times).sampled
-        = (sampled.zip times).map (fun p => if p.2 - listMin times > 0 ∨ listMin times > 0 then p.1.sampledAt p.2 else p.1) :=
-  augment_spec g sampled times hlen hbase
+        = (sampled.zip times).map (fun p => if p.2 - listMin times > 0 ∨ listMin times > 0 then p.1.sampledAt p.2 else p.1) := by
+  -- what one pass of the translated loop does, in its three cases
+  have F : AugFacts augStep augLoop := by
+    refine ⟨fun _ _ _ => rfl, fun _ _ _ _ _ _ => rfl, ?_, ?_, ?_⟩
+    · intro t s ii sd st h
+      unfold augStep
+      simp [h]
+    · intro t s ii sd st h1 h2
+      have e1 := funext (renameDeme_eq sd (sd.sampledAt (st + t)))
+      have e2 := funext (renameMig_eq sd (sd.sampledAt (st + t)))
+      have e3 := funext (renamePulse_eq sd (sd.sampledAt (st + t)))
+      simp only at e1 e2 e3
+      unfold augStep
+      simp only [h1, h2, decide_true, decide_false, Bool.or_true, if_true, if_false, Bool.false_eq_true, e1, e2, e3]
+    · intro t s ii sd st h1 h2
+      unfold augStep
+      simp [h1, h2]
+  exact augment_spec F augment (fun g sampled times => by unfold augment; rfl) g sampled times hlen hbase
 
 /-- the frozen flag of an integration follows the list of frozen names: the branch of an ancient sample is frozen, nothing else is -/
 theorem C16_ancient_frozen (frozenList live : List DName) :
@@ -512,7 +528,14 @@ theorem C16_compose_units {gt : ℚ} (hgt : gt ≠ 0) (g : Graph InEpoch) (times
     ∧ importSteps (convertToGenerations false gt (g.tmap (fun y => gt * y)) (times.map fun x => gt * x)).1 lib sampled frozenList Ne
         = importSteps g lib sampled frozenList Ne
     ∧ convertToGenerations true gt g times = (g, times) := by
-  rw [convert_years hgt]
+  have hconv : convertToGenerations false gt (g.tmap (fun y => gt * y)) (times.map fun x => gt * x) = (g, times) := by
+    unfold convertToGenerations
+    simp only [Bool.false_eq_true, if_false, inGenerations_years hgt, List.map_map, Prod.mk.injEq, true_and]
+    conv_rhs => rw [← List.map_id times]
+    apply List.map_congr_left
+    intro x _
+    simp [mul_div_cancel_left₀ _ hgt]
+  rw [hconv]
   exact ⟨rfl, rfl, rfl, rfl⟩
 
 /-- **Whole graph, order of the sampled demes** (present-day samples): listing the sampled demes in another order (`sampled'` with the
@@ -547,32 +570,119 @@ theorem C16_units_slice (ex lg : ℚ → ℚ) (pw : ℚ → ℚ → ℚ) {a b : 
     ∧ (sliceGraph (a * t) (g.rescale a b)).migs = (sliceGraph t g).migs.map (GMig.rescale a b) :=
   sliceGraph_rescale' ex lg pw ha hb t g
 
-/-- **Unit conversion commutes with the augmentation** (the order bug of a conversion done first with the sample times left in years):
-    (1) `_augment_with_ancient_samples` on the graph and the sample times written in another time unit (every time × `gt`) returns the
-    augmented graph written in that unit, names carrying `gt·x` where they carried `x`;  (2) what `SFS` hands to the importer for the
-    graph in years — frozen branches added in years, conversion afterwards, as in the source — is what it hands over for the graph in
-    generations: same demes (sizes evaluated), migrations, pulses, frozen list and sampled demes up to the time in the new names, same
-    sample times. -/
+/-- **Unit conversion commutes with the augmentation**: `_augment_with_ancient_samples` on the graph and the sample times written in
+    another time unit (every time × `gt`) returns the augmented graph written in that unit — every deme (sliced, renamed and added ones;
+    sizes evaluated), migration and pulse with its times × `gt`, names carrying `gt·x` where they carried `x`, the same frozen list and
+    sampled demes.  The frozen branch of a sample taken at `x` starts at `gt·x − gt·t`: converting before or after is the same. -/
 theorem C16_units_ancient (ex lg : ℚ → ℚ) (pw : ℚ → ℚ → ℚ) {gt : ℚ} (hgt : 0 < gt) (g : Graph InEpoch) (sampled : List DName) (times : List ℚ)
     (hlen : sampled.length = times.length) (hbase : ∀ n ∈ sampled, n.stamps = []) (hg : g.namesBase) :
-    ((augment (g.rescale gt 1) sampled (times.map (gt * ·))).demes.map (GDeme.ev ex lg pw)
+    (augment (g.rescale gt 1) sampled (times.map (gt * ·))).demes.map (GDeme.ev ex lg pw)
         = ((augment g sampled times).demes.map (GDeme.ev ex lg pw)).map (fun d => GDeme.rename (DName.smap gt) (GDeme.rescaleEv gt 1 d))
-      ∧ (augment (g.rescale gt 1) sampled (times.map (gt * ·))).migs
+    ∧ (augment (g.rescale gt 1) sampled (times.map (gt * ·))).migs
         = (augment g sampled times).migs.map (fun m => GMig.rename (DName.smap gt) (GMig.rescale gt 1 m))
-      ∧ (augment (g.rescale gt 1) sampled (times.map (gt * ·))).pulses
+    ∧ (augment (g.rescale gt 1) sampled (times.map (gt * ·))).pulses
         = (augment g sampled times).pulses.map (fun p => GPulse.rename (DName.smap gt) (GPulse.rescale gt p))
-      ∧ (augment (g.rescale gt 1) sampled (times.map (gt * ·))).frozen = (augment g sampled times).frozen.map (DName.smap gt)
-      ∧ (augment (g.rescale gt 1) sampled (times.map (gt * ·))).sampled = (augment g sampled times).sampled.map (DName.smap gt))
-    ∧ ((sfsPrepare false gt (g.rescale gt 1) sampled (times.map (gt * ·))).1.demes.map (GDeme.ev ex lg pw)
+    ∧ (augment (g.rescale gt 1) sampled (times.map (gt * ·))).frozen = (augment g sampled times).frozen.map (DName.smap gt)
+    ∧ (augment (g.rescale gt 1) sampled (times.map (gt * ·))).sampled = (augment g sampled times).sampled.map (DName.smap gt) :=
+  augment_rescale (fun g s t h1 h2 => C16_ancient_branch g s t h1 h2) ex lg pw hgt g sampled times hlen hbase hg
+
+/-- **`SFS` prepares a graph written in years exactly like the graph in generations** (ancient samples included; the order bug of a
+    conversion done first with the sample times left in years): with the frozen branches added in the graph's own unit and the conversion
+    done afterwards — the order of the source, translated into `sfsPrepare` — the graph handed to the importer is the one obtained from the
+    graph in generations: same demes (sizes evaluated), migrations, pulses, frozen list and sampled demes up to the time the new names
+    carry, and the same sample times. -/
+theorem C16_units_prepare (ex lg : ℚ → ℚ) (pw : ℚ → ℚ → ℚ) {gt : ℚ} (hgt : 0 < gt) (g : Graph InEpoch) (sampled : List DName) (times : List ℚ)
+    (hlen : sampled.length = times.length) (hbase : ∀ n ∈ sampled, n.stamps = []) (hg : g.namesBase) :
+    (sfsPrepare false gt (g.rescale gt 1) sampled (times.map (gt * ·))).1.demes.map (GDeme.ev ex lg pw)
         = ((sfsPrepare true 1 g sampled times).1.demes.map (GDeme.ev ex lg pw)).map (GDeme.rename (DName.smap gt))
-      ∧ (sfsPrepare false gt (g.rescale gt 1) sampled (times.map (gt * ·))).1.migs
+    ∧ (sfsPrepare false gt (g.rescale gt 1) sampled (times.map (gt * ·))).1.migs
         = (sfsPrepare true 1 g sampled times).1.migs.map (GMig.rename (DName.smap gt))
-      ∧ (sfsPrepare false gt (g.rescale gt 1) sampled (times.map (gt * ·))).1.pulses
+    ∧ (sfsPrepare false gt (g.rescale gt 1) sampled (times.map (gt * ·))).1.pulses
         = (sfsPrepare true 1 g sampled times).1.pulses.map (GPulse.rename (DName.smap gt))
-      ∧ (sfsPrepare false gt (g.rescale gt 1) sampled (times.map (gt * ·))).2.1 = (sfsPrepare true 1 g sampled times).2.1.map (DName.smap gt)
-      ∧ (sfsPrepare false gt (g.rescale gt 1) sampled (times.map (gt * ·))).2.2.1 = (sfsPrepare true 1 g sampled times).2.2.1.map (DName.smap gt)
-      ∧ (sfsPrepare false gt (g.rescale gt 1) sampled (times.map (gt * ·))).2.2.2 = (sfsPrepare true 1 g sampled times).2.2.2) :=
-  ⟨augment_rescale ex lg pw hgt g sampled times hlen hbase hg, sfsPrepare_units ex lg pw hgt g sampled times hlen hbase hg⟩
+    ∧ (sfsPrepare false gt (g.rescale gt 1) sampled (times.map (gt * ·))).2.1 = (sfsPrepare true 1 g sampled times).2.1.map (DName.smap gt)
+    ∧ (sfsPrepare false gt (g.rescale gt 1) sampled (times.map (gt * ·))).2.2.1 = (sfsPrepare true 1 g sampled times).2.2.1.map (DName.smap gt)
+    ∧ (sfsPrepare false gt (g.rescale gt 1) sampled (times.map (gt * ·))).2.2.2 = (sfsPrepare true 1 g sampled times).2.2.2 := by
+  have hne : gt ≠ 0 := ne_of_gt hgt
+  have hany : (times.map (gt * ·)).any (fun x => x != 0) = times.any (fun x => x != 0) := by
+    rw [List.any_map]
+    congr 1
+    funext x
+    by_cases hx : x = 0
+    · simp [hx]
+    · have h0 : gt * x ≠ 0 := mul_ne_zero hne hx
+      have h1 : (gt * x != 0) = true := bne_iff_ne.2 h0
+      have h2 : (x != 0) = true := bne_iff_ne.2 hx
+      show (gt * x != 0) = (x != 0)
+      rw [h1, h2]
+  obtain ⟨A1, A2, A3, A4, A5⟩ := C16_units_ancient ex lg pw hgt g sampled times hlen hbase hg
+  unfold sfsPrepare convertToGenerations
+  simp only [hany, Bool.not_false, Bool.not_true, Bool.false_eq_true, if_true, if_false]
+  by_cases h : times.any (fun x => x != 0) = true
+  · simp only [h, if_true, Graph.inGenerations, Graph.tmap]
+    refine ⟨?_, ?_, ?_, A5, A4, ?_⟩
+    · rw [List.map_map]
+      have : List.map (GDeme.ev ex lg pw ∘ GDeme.tmap fun x => x / gt) (augment (g.rescale gt 1) sampled (times.map (gt * ·))).demes
+          = ((augment (g.rescale gt 1) sampled (times.map (gt * ·))).demes.map (GDeme.ev ex lg pw)).map (GDeme.tmap fun x => x / gt) := by
+        rw [List.map_map]
+        apply List.map_congr_left
+        intro d _
+        exact tmap_ev ex lg pw _ d
+      rw [this, A1, List.map_map]
+      apply List.map_congr_left
+      intro d _
+      exact tmap_rescaleEv hne _ d
+    · rw [A2, List.map_map]
+      apply List.map_congr_left
+      intro m _
+      obtain ⟨s1, d1, sy, r, st, et⟩ := m
+      cases st <;> simp [GMig.tmap, GMig.rename, GMig.rescale, tmapT, tscale, mul_div_cancel_left₀ _ hne]
+    · rw [A3, List.map_map]
+      apply List.map_congr_left
+      intro p _
+      simp [GPulse.tmap, GPulse.rename, GPulse.rescale, mul_div_cancel_left₀ _ hne]
+    · simp [List.map_map, Function.comp_def]
+  · have h' : times.any (fun x => x != 0) = false := by simpa using h
+    obtain ⟨hd, hm, hp⟩ := hg
+    simp only [h', Bool.false_eq_true, if_false, Graph.inGenerations, Graph.tmap, Graph.toOut, Graph.rescale, List.map_map]
+    refine ⟨?_, ?_, ?_, ?_, rfl, ?_⟩
+    · apply List.map_congr_left
+      intro d hdm
+      obtain ⟨h1, h2⟩ := hd d hdm
+      have hb : GDeme.rename (DName.smap gt) (GDeme.ev ex lg pw (GDeme.toOut d)) = GDeme.ev ex lg pw (GDeme.toOut d) :=
+        rename_base_deme gt _ h1 h2
+      simp only [Function.comp_def, hb]
+      obtain ⟨n, st, an, pr, ep⟩ := d
+      simp only [GDeme.tmap, GDeme.ev, GDeme.toOut, GDeme.rescale, List.map_map, GDeme.mk.injEq, true_and]
+      refine ⟨?_, ?_⟩
+      · cases st <;> simp [tmapT, tscale, mul_div_cancel_left₀ _ hne]
+      · apply List.map_congr_left
+        intro e _
+        simp [TimeScalable.tmap, OutEpoch.ev, InEpoch.toOut, InEpoch.rescale, Sym.eval, mul_div_cancel_left₀ _ hne]
+    · apply List.map_congr_left
+      intro m hmm
+      obtain ⟨h1, h2⟩ := hm m hmm
+      obtain ⟨s1, d1, sy, r, st, et⟩ := m
+      simp only at h1 h2
+      cases st <;> simp [GMig.tmap, GMig.rename, GMig.rescale, tmapT, tscale, mul_div_cancel_left₀ _ hne, smap_base gt _ h1, smap_base gt _ h2]
+    · apply List.map_congr_left
+      intro p hpm
+      obtain ⟨h1, h2⟩ := hp p hpm
+      obtain ⟨so, d1, pr, tm⟩ := p
+      simp only at h1 h2
+      simp only [Function.comp_def, GPulse.tmap, GPulse.rename, GPulse.rescale, mul_div_cancel_left₀ _ hne, smap_base gt _ h1, GPulse.mk.injEq,
+        true_and, and_true]
+      conv_lhs => rw [← List.map_id so]
+      apply List.map_congr_left
+      intro x hx
+      exact (smap_base gt x (h2 x hx)).symm
+    · conv_lhs => rw [← List.map_id sampled]
+      apply List.map_congr_left
+      intro x hx
+      exact (smap_base gt x (hbase x hx)).symm
+    · conv_rhs => rw [← List.map_id times]
+      apply List.map_congr_left
+      intro x _
+      simp [mul_div_cancel_left₀ _ hne]
 
 /-- non-vacuity: `exGraph` in years (generation time 25), deme 1 sampled now and 7 generations = 175 years ago: after the preparation the
     frozen branch starts 7 generations ago -/
@@ -594,7 +704,7 @@ theorem C16_ancient_order (g : Graph InEpoch) (sampled sampled' : List DName) (t
     ∧ (augment g sampled' times').frozen.Perm (augment g sampled times).frozen
     ∧ (augment g sampled' times').demes.take (sliceGraph (listMin times) g).demes.length
         = (augment g sampled times).demes.take (sliceGraph (listMin times) g).demes.length :=
-  augment_perm g sampled sampled' times times' hlen hlen' hbase hperm
+  augment_perm (fun g s t h1 h2 => C16_ancient_branch g s t h1 h2) g sampled sampled' times times' hlen hlen' hbase hperm
 
 example : ((augment exGraph [⟨2, []⟩, ⟨1, []⟩, ⟨1, []⟩] [3, 0, 7]).demes.map (·.name)) = [⟨0, []⟩, ⟨1, []⟩, ⟨2, []⟩, ⟨2, [3]⟩, ⟨1, [7]⟩]
     ∧ ((augment exGraph [⟨1, []⟩, ⟨1, []⟩, ⟨2, []⟩] [7, 0, 3]).demes.map (·.name)) = [⟨0, []⟩, ⟨1, []⟩, ⟨2, []⟩, ⟨1, [7]⟩, ⟨2, [3]⟩] := by
